@@ -192,6 +192,96 @@ theorem C04_multi_settled_new (cfgs : List STCfg) (hwf : ∀ c ∈ cfgs, WfCfg c
   unfold funcRuns Spec.funcRuns
   rw [show (exec New.handle cfgs (start hub) (settled cfgs.length ops)).log = Spec.log cfgs hub.live ops from this]
 
+/-- **Re-subscription** (both subsystems, all interleavings).  A first life along ANY schedule `life1` (which may end
+with operations issued while nobody is subscribed), then every subscriber goes away and comes back (`relife`: fresh
+queues; `State.notify` keeps its entries and `State.notify_var_last` its values), then a second life along ANY schedule:
+the runs of the second life are exactly the spec's runs of its operations from the snapshot it starts on – in
+particular a burst right after re-subscription is evaluated on the values AT each event, because a variable notified
+(or recorded while unsubscribed) in the first life is still primed. -/
+theorem C04_resubscribed (h : Handler) (hh : h = Legacy.handle ∨ h = New.handle) (cfgs : List STCfg) (i : Nat)
+    (c : STCfg) (hi : cfgs[i]? = some c) (wf : WfCfg c) (hub : Hub) (hg : Good cfgs hub) (hp : Primed c hub)
+    (life1 life2 : List Step) :
+    let s1 := exec h cfgs (start hub) life1
+    let s2 := exec h cfgs (relife s1) life2
+    runsOf i s2.log ++ pendRuns h c (s2.ts i).q = runsOf i s1.log ++ stRuns c s1.hub.live (opsOf life2) ∧
+      (s2.ts i).evals ++ pendEvals h c (s2.ts i).q = (s1.ts i).evals ++ stEvals c s1.hub.live (opsOf life2) := by
+  have hok : HandlerOK h cfgs c := by
+    rcases hh with rfl | rfl
+    · exact legacy_handlerOK cfgs c wf
+    · exact new_handlerOK cfgs c wf
+  have inv0 : Inv h cfgs i c (start hub) [] [] :=
+    ⟨hg, hp, by intro m hm; simp [start] at hm, by simp [start, runsOf, pendRuns], by simp [start, pendEvals]⟩
+  have inv1 := inv_exec hi hok wf life1 _ _ _ inv0
+  have inv1' : Inv h cfgs i c (relife (exec h cfgs (start hub) life1))
+      (runsOf i (exec h cfgs (start hub) life1).log) ((exec h cfgs (start hub) life1).ts i).evals :=
+    ⟨inv1.good, inv1.primed, by intro m hm; simp [relife] at hm, by simp [relife, pendRuns],
+      by simp [relife, pendEvals]⟩
+  have inv2 := inv_exec hi hok wf life2 _ _ _ inv1'
+  exact ⟨by simpa [relife] using inv2.runs, by simpa [relife] using inv2.evals⟩
+
+/-- **The keyword arguments of a run depend only on its own decorator and its own event** (both subsystems, all
+interleavings, any number of decorators and functions on the same entity): every run in the log of decorator `j` is
+`mkRun cⱼ ev` for an event `ev` – the event's `trigger_type`, `var_name`, `value`, `old_value` overridden by `cⱼ`'s own
+`kwargs`, never another subscriber's (each queue gets its own message, `enqueue`). -/
+theorem C04_run_kwargs_own (h : Handler) (hh : h = Legacy.handle ∨ h = New.handle) (cfgs : List STCfg)
+    (steps : List Step) :
+    ∀ s : Sys, (∀ p ∈ s.log, ∃ c ev, cfgs[p.1]? = some c ∧ p.2 = mkRun c ev) →
+      ∀ p ∈ (exec h cfgs s steps).log, ∃ c ev, cfgs[p.1]? = some c ∧ p.2 = mkRun c ev := by
+  have hown' : ∀ (c : STCfg) (live : Store) (m : Msg),
+      (h c live m).run = none ∨ (h c live m).run = some (mkRun c m.ev) := by
+    intro c live m
+    rcases hh with rfl | rfl
+    · unfold Legacy.handle
+      split
+      · split
+        · left; rfl
+        · split
+          · dsimp only
+            split
+            · right; rfl
+            · left; rfl
+          · left; rfl
+      · right; rfl
+    · have hb : ∀ (b : Bool) (x : Run), (if b = true then some x else none) = none ∨
+          (if b = true then some x else none) = some x := by intro b x; cases b <;> simp
+      unfold New.handle New.handleF
+      exact hb _ _
+  have hown : ∀ (c : STCfg) (live : Store) (m : Msg) (r : Run), (h c live m).run = some r → r = mkRun c m.ev := by
+    intro c live m r hr
+    rcases hown' c live m with h0 | h0
+    · rw [h0] at hr; simp at hr
+    · rw [h0] at hr; exact (Option.some.inj hr).symm
+  induction steps with
+  | nil => intro s hs; simpa [exec] using hs
+  | cons st rest ih =>
+    intro s hs
+    simp only [exec, List.foldl_cons]
+    apply ih
+    cases st with
+    | op o =>
+      simp only [step]
+      cases Hub.apply cfgs s.hub o with
+      | mk hub' oev => cases oev <;> exact hs
+    | deq j =>
+      simp only [step]
+      cases hj : cfgs[j]? with
+      | none => exact hs
+      | some cj =>
+        cases hq : (s.ts j).q with
+        | nil => exact hs
+        | cons m q =>
+          intro p hp
+          simp only [logRun] at hp
+          cases hr : (h cj s.hub.live m).run with
+          | none => rw [hr] at hp; exact hs p hp
+          | some r =>
+            rw [hr] at hp
+            rcases List.mem_append.mp hp with h1 | h1
+            · exact hs p h1
+            · have : p = (j, r) := by simpa using h1
+              subst this
+              exact ⟨cj, m.ev, hj, hown cj _ m r hr⟩
+
 /-- **kwargs of a run delayed by `state_hold`** (both subsystems): the delayed run receives exactly what an immediate
 run for the same event receives – trigger_type, var_name, value, old_value of the event that started the hold,
 overridden / extended by the decorator's `kwargs`.  (In the legacy loop this needs BOTH update sites: merging only in
@@ -275,13 +365,67 @@ theorem C04_cex_multi_burst_order :
       (Spec.funcRuns [cexTop, cexBot] 0 [] (opsOf steps)).map (·.ctx) = [1, 2] := by
   decide
 
-/-- `@state_trigger(expr, kwargs=None)` – the value the documentation shows as the default: the spec (and a decorator
-without `kwargs=`) runs for every qualifying change; both subsystems never run (legacy: the trigger task dies with a
-`TypeError` at the first qualifying change; new: the decorator is rejected).  Finding C04-F5. -/
-theorem C04_cex_kwargs_none :
+/-- **`@state_trigger(expr, kwargs=None)`** – the value the documentation shows as the default – **means no extra
+keywords** (both subsystems, every history; code since the fix of C04-F5, `… .get("kwargs") or {}`): the function runs for
+exactly the qualifying changes, in order, and the expression is evaluated for every delivered watched change. -/
+theorem C04_kwargs_none (qs : List Bool) (ctxs : List Nat) (hl : qs.length = ctxs.length) :
+    Legacy.kwNoneRuns qs ctxs = ((qs.zip ctxs).filter (·.1)).map (·.2) ∧
+      New.kwNoneRuns qs ctxs = ((qs.zip ctxs).filter (·.1)).map (·.2) ∧
+      Legacy.kwNoneEvals qs = qs.length ∧ New.kwNoneEvals qs = qs.length ∧ kwOr none = [] := by
+  have h1 : Gen.KWARGS_NONE_IS_EMPTY_LEGACY = true := by decide
+  have h2 : Gen.KWARGS_NONE_IS_EMPTY_NEW = true := by decide
+  have hk : ∀ (qs : List Bool) (ctxs : List Nat), qs.length = ctxs.length →
+      kwRuns qs ctxs = ((qs.zip ctxs).filter (·.1)).map (·.2) := by
+    intro qs
+    induction qs with
+    | nil => intro ctxs _; simp [kwRuns]
+    | cons q qs ih =>
+      intro ctxs hl
+      cases ctxs with
+      | nil => simp at hl
+      | cons c cs =>
+        have hl' : qs.length = cs.length := by simpa using hl
+        cases q <;> simp [kwRuns, ih cs hl']
+  unfold Legacy.kwNoneRuns New.kwNoneRuns Legacy.kwNoneEvals New.kwNoneEvals
+  rw [h1, h2]
+  simp [Legacy.kwNoneRunsF, New.kwNoneRunsF, Legacy.kwNoneEvalsF, New.kwNoneEvalsF, hk qs ctxs hl, kwOr]
+
+/-- regression (C04-F5): BEFORE the fix both subsystems never ran such a function (legacy: the trigger task died with a
+`TypeError` at the first qualifying change, after evaluating up to it; new: the decorator was rejected at validation). -/
+theorem C04_regress_kwargs_none :
     let qs := [false, true, false, true]
-    Legacy.kwNoneRuns qs = [] ∧ New.kwNoneRuns qs = [] ∧ Legacy.kwNoneEvals qs = 2 ∧ New.kwNoneEvals qs = 0 ∧
-      (qs.filter id).length = 2 := by
+    let ctxs := [1, 2, 3, 4]
+    Legacy.kwNoneRunsF false qs ctxs = [] ∧ New.kwNoneRunsF false qs ctxs = [] ∧ Legacy.kwNoneEvalsF false qs = 2 ∧
+      New.kwNoneEvalsF false qs = 0 ∧ Legacy.kwNoneRunsF true qs ctxs = [2, 4] ∧ New.kwNoneRunsF true qs ctxs = [2, 4] := by
+  decide
+
+/-- **The shapes of `State.update` / `State.notify_del` the hub model relies on**, read off the source on every run
+(`tools/extractors/C04.py`): every subscriber queue gets its own copy of `func_args` (`enqueue`, `C04_run_kwargs_own`),
+`notify_var_last` is recorded for every key of `State.notify` (`Hub.apply`), and `notify_del` removes only the queue –
+the entity's entry and its last value survive a period without subscribers (`relife`, `C04_resubscribed`). -/
+theorem C04_hub_shapes : hubShapeOK = true := by decide
+
+
+/-- the situation `C04_resubscribed` excludes, as a closed witness: had the last values been forgotten when the last
+subscriber left (hub `⟨live, []⟩` for the second life), the burst `a := 1; b := 5` right after re-subscription would lose
+the run for `a := 1` (`b` was still `'0'`) – with the values kept it runs. -/
+theorem C04_resubscribed_witness :
+    let life1 : List Step := [.op ⟨"pyscript.a", sv "0", 1⟩, .deq 0, .op ⟨"pyscript.b", sv "0", 2⟩, .deq 0]
+    let s1 := exec Legacy.handle [cexCfg] (start ⟨[], []⟩) life1
+    let burst : List Step := [.op ⟨"pyscript.a", sv "1", 3⟩, .op ⟨"pyscript.b", sv "5", 4⟩, .deq 0, .deq 0]
+    (runsOf 0 (exec Legacy.handle [cexCfg] (relife s1) burst).log).map (·.ctx) = [3] ∧
+      (runsOf 0 (exec New.handle [cexCfg] (relife (exec New.handle [cexCfg] (start ⟨[], []⟩) life1)) burst).log).map
+        (·.ctx) = [3] ∧
+      runsOf 0 (exec Legacy.handle [cexCfg] (start ⟨s1.hub.live, []⟩) burst).log = [] := by
+  decide
+
+/-- non-vacuity of `C04_run_kwargs_own`: two decorators on one entity, the first with `kwargs` overriding `value` – the
+second decorator's run for the same event carries the event's own value -/
+example :
+    let c1 : STCfg := ⟨none, [], [nA], none, [("value", "forced"), ("tag", "held")], 0⟩
+    let c2 : STCfg := ⟨none, [], [nA], none, [], 1⟩
+    (exec Legacy.handle [c1, c2] (start ⟨[], []⟩) [.op ⟨"pyscript.a", sv "1", 1⟩, .deq 0, .deq 1]).log =
+      [(0, mkRun c1 ⟨"pyscript.a", sv "1", none, 1⟩), (1, mkRun c2 ⟨"pyscript.a", sv "1", none, 1⟩)] := by
   decide
 
 /-- non-vacuity of the hypotheses of `C04_legacy`: a fresh start where the expression's entities do not exist yet -/
